@@ -1353,6 +1353,7 @@ package xpath
 //@   modifies nothing
 //@   ensures[shape@C10] result != nil && is(result, *functionNode)
 //@ func (*parser).parseOrExpr
+//@   mode int
 //@   props C06 C10 C17 C15
 //@   requires[depth@C06] p != nil && 0 <= p.d && p.d <= 200
 //@   maypanic
@@ -1372,6 +1373,7 @@ package xpath
 //@   loop * decreases pmeas(p.r)
 //@   loop * invariant[progress@C06] pmeas(p.r) < old(pmeas(p.r))
 //@ func (*parser).parseAndExpr
+//@   mode int
 //@   props C06 C10 C17 C15
 //@   requires[depth@C06] p != nil && 0 <= p.d && p.d <= 200
 //@   maypanic
@@ -1391,6 +1393,7 @@ package xpath
 //@   loop * decreases pmeas(p.r)
 //@   loop * invariant[progress@C06] pmeas(p.r) < old(pmeas(p.r))
 //@ func (*parser).parseEqualityExpr
+//@   mode int
 //@   props C06 C10 C17 C15
 //@   requires[depth@C06] p != nil && 0 <= p.d && p.d <= 200
 //@   maypanic
@@ -1410,6 +1413,7 @@ package xpath
 //@   loop * decreases pmeas(p.r)
 //@   loop * invariant[progress@C06] pmeas(p.r) < old(pmeas(p.r))
 //@ func (*parser).parseRelationalExpr
+//@   mode int
 //@   props C06 C10 C17 C15
 //@   requires[depth@C06] p != nil && 0 <= p.d && p.d <= 200
 //@   maypanic
@@ -1429,6 +1433,7 @@ package xpath
 //@   loop * decreases pmeas(p.r)
 //@   loop * invariant[progress@C06] pmeas(p.r) < old(pmeas(p.r))
 //@ func (*parser).parseAdditiveExpr
+//@   mode int
 //@   props C06 C10 C17 C15
 //@   requires[depth@C06] p != nil && 0 <= p.d && p.d <= 200
 //@   maypanic
@@ -1448,6 +1453,7 @@ package xpath
 //@   loop * decreases pmeas(p.r)
 //@   loop * invariant[progress@C06] pmeas(p.r) < old(pmeas(p.r))
 //@ func (*parser).parseMultiplicativeExpr
+//@   mode int
 //@   props C06 C10 C17 C15
 //@   requires[depth@C06] p != nil && 0 <= p.d && p.d <= 200
 //@   maypanic
@@ -1467,6 +1473,7 @@ package xpath
 //@   loop * decreases pmeas(p.r)
 //@   loop * invariant[progress@C06] pmeas(p.r) < old(pmeas(p.r))
 //@ func (*parser).parseUnaryExpr
+//@   mode int
 //@   props C06 C10 C17 C15 C08
 //@   ensures[negation@C08] minus ==> is(result, *operatorNode) && as(result, *operatorNode).Op == "*" && is(as(result, *operatorNode).Right, *operandNode) && as(as(result, *operatorNode).Right, *operandNode).Val == box(float(0 - 1))
 //@   requires[depth@C06] p != nil && 0 <= p.d && p.d <= 200
@@ -1487,6 +1494,7 @@ package xpath
 //@   loop * decreases pmeas(p.r)
 //@   loop * invariant[progress@C06] pmeas(p.r) <= old(pmeas(p.r))
 //@ func (*parser).parseUnionExpr
+//@   mode int
 //@   props C06 C10 C17 C15
 //@   requires[depth@C06] p != nil && 0 <= p.d && p.d <= 200
 //@   maypanic
@@ -1506,6 +1514,7 @@ package xpath
 //@   loop * decreases pmeas(p.r)
 //@   loop * invariant[progress@C06] pmeas(p.r) < old(pmeas(p.r))
 //@ func (*parser).parseSequence
+//@   mode int
 //@   props C06 C10 C17 C15
 //@   requires[depth@C06] p != nil && 0 <= p.d && p.d <= 200
 //@   maypanic
@@ -1525,6 +1534,7 @@ package xpath
 //@   loop * decreases pmeas(p.r)
 //@   loop * invariant[progress@C06] pmeas(p.r) < old(pmeas(p.r))
 //@ func (*parser).parsePrimaryExpr
+//@   mode int
 //@   props C06 C10 C17 C15
 //@   requires[depth@C06] p != nil && 0 <= p.d && p.d <= 200
 //@   maypanic
@@ -1537,6 +1547,7 @@ package xpath
 //@   ensures[swf@C17] swf(p.r)
 //@   ensures[progress@C06] pmeas(p.r) < old(pmeas(p.r))
 //@   loop * decreases pmeas(p.r)
+//@   requires[primary@C06] primaryTok(p.r)
 
 // ---------------------------------------------------------------------------
 // The regexp cache (cache.go). The cache is shared between goroutines: its map
@@ -1830,6 +1841,7 @@ package xpath
 // both components non-negative and bounded): the callee's measure is smaller at every call,
 // which bounds the depth of the Go stack by (limit+1) * (ranks+1) frames.
 //@ func (*parser).parseExpression
+//@   mode int
 //@   props C06 C10 C17
 //@   requires[depth@C06] p != nil && 0 <= p.d && p.d <= 200
 //@   maypanic
@@ -1844,6 +1856,7 @@ package xpath
 //@   ensures[progress@C06] pmeas(p.r) < old(pmeas(p.r))
 //@   loop * decreases pmeas(p.r)
 //@ func (*parser).parsePathExpr
+//@   mode int
 //@   props C06 C10 C17
 //@   requires[depth@C06] p != nil && 0 <= p.d && p.d <= 200
 //@   maypanic
@@ -1858,6 +1871,7 @@ package xpath
 //@   ensures[progress@C06] pmeas(p.r) < old(pmeas(p.r))
 //@   loop * decreases pmeas(p.r)
 //@ func (*parser).parseFilterExpr
+//@   mode int
 //@   props C06 C10 C17
 //@   requires[depth@C06] p != nil && 0 <= p.d && p.d <= 200
 //@   maypanic
@@ -1871,7 +1885,9 @@ package xpath
 //@   ensures[progress@C06] pmeas(p.r) < old(pmeas(p.r))
 //@   loop * decreases pmeas(p.r)
 //@   loop * invariant[progress@C06] pmeas(p.r) < old(pmeas(p.r))
+//@   requires[primary@C06] primaryTok(p.r)
 //@ func (*parser).parseMethod
+//@   mode int
 //@   props C06 C10 C17
 //@   requires[depth@C06] p != nil && 0 <= p.d && p.d <= 200
 //@   maypanic
@@ -1891,6 +1907,7 @@ package xpath
 //@   loop * decreases pmeas(p.r)
 //@   loop * invariant[progress@C06] pmeas(p.r) < old(pmeas(p.r))
 //@ func (*parser).parsePredicate
+//@   mode int
 //@   props C06 C10 C17
 //@   requires[depth@C06] p != nil && 0 <= p.d && p.d <= 200
 //@   maypanic
@@ -1904,6 +1921,7 @@ package xpath
 //@   ensures[progress@C06] pmeas(p.r) < old(pmeas(p.r))
 //@   loop * decreases pmeas(p.r)
 //@ func (*parser).parseLocationPath
+//@   mode int
 //@   props C06 C10 C17
 //@   requires[depth@C06] p != nil && 0 <= p.d && p.d <= 200
 //@   maypanic
@@ -1918,6 +1936,7 @@ package xpath
 //@   ensures[progress@C06] pmeas(p.r) < old(pmeas(p.r))
 //@   loop * decreases pmeas(p.r)
 //@ func (*parser).parseRelativeLocationPath
+//@   mode int
 //@   props C06 C10 C17
 //@   requires[depth@C06] p != nil && 0 <= p.d && p.d <= 200
 //@   maypanic
@@ -1936,6 +1955,7 @@ package xpath
 //@   loop * decreases pmeas(p.r)
 //@   loop * invariant[progress@C06] pmeas(p.r) <= old(pmeas(p.r))
 //@ func (*parser).parseStep
+//@   mode int
 //@   props C06 C10 C17
 //@   requires[depth@C06] p != nil && 0 <= p.d && p.d <= 200
 //@   maypanic
@@ -1960,6 +1980,7 @@ package xpath
 //@   loop * decreases pmeas(p.r)
 //@   loop * invariant[progress@C06] pmeas(p.r) < old(pmeas(p.r))
 //@ func (*parser).parseNodeTest
+//@   mode int
 //@   props C06 C10 C17
 //@   requires[depth@C06] p != nil && 0 <= p.d && p.d <= 200
 //@   maypanic
@@ -1976,6 +1997,7 @@ package xpath
 //@   ensures[progress@C06] pmeas(p.r) < old(pmeas(p.r))
 //@   loop * decreases pmeas(p.r)
 //@ func (*parser).next
+//@   mode int
 //@   props C06
 //@   requires p != nil
 //@   requires[swf@C17] swf(p.r)
@@ -1984,6 +2006,7 @@ package xpath
 //@   modifies heap(F:scanner.*)
 //@   ensures[progress@C06] old(p.r.typ) != itemEOF ==> pmeas(p.r) < old(pmeas(p.r))
 //@ func (*parser).skipItem
+//@   mode int
 //@   props C06
 //@   requires p != nil
 //@   requires[swf@C17] swf(p.r)
@@ -2145,6 +2168,8 @@ package xpath
 // Termination of the compile phase (C06: no hang). smeas: the characters the scanner has not consumed
 // yet (plus one for a pending look-ahead character); pmeas: the same plus one for a pending token.
 // Every scanner loop decreases smeas, every parser loop decreases pmeas.
+//@ define nodeTypeName(r) = (r.name == "node" || r.name == "text" || r.name == "processing-instruction" || r.name == "comment") && r.prefix == ""
+//@ define primaryTok(r) = r.typ == itemString || r.typ == itemNumber || r.typ == itemDollar || r.typ == itemLParens || r.typ == itemName && r.canBeFunc && !nodeTypeName(r)
 //@ define smeas(s) = (len(s.text) - s.pos) + ite(s.curr != 0, 1, 0)
 //@ define pmeas(s) = ite(s.typ == itemEOF, 0, smeas(s) + 1)
 //@ define swf(s) = 0 <= s.pos && s.pos <= len(s.text) && 1 <= s.currSize && s.currSize <= 4 && s.currSize <= s.pos + 1
